@@ -937,6 +937,7 @@ def kernel_cross_check(ctx, report, status):
             amb = ambiguity.Ambiguity.compute_ambiguity(cost, *args)
             amb2, sampled = ambiguity.Ambiguity.compute_ambiguity_and_sampled_ambiguity(cost, *args)
             rmax, rmin = risk.Risk.compute_risk(cost, sampled, *args)
+            rmax2, rmin2, srmax, srmin = risk.Risk.compute_risk_and_sampled_risk(cost, sampled, *args)
             binf, bsup = interval_bounds.IntervalBounds.compute_interval_bounds(cost, dispf, f4(float(thr)), f4(tf))
         report.count("kernel_translation_calls")
         for r in range(cost.shape[0]):
@@ -946,6 +947,7 @@ def kernel_cross_check(ctx, report, status):
                 got = {}
                 want = {"computeAmbiguityPx": [amb[r, c]], "computeAmbiguitySampledPx": [amb2[r, c], [x for x in sampled[r, c, :]]],
                         "computeRiskPx": [rmax[r, c], rmin[r, c]],
+                        "computeRiskSampledPx": [rmax2[r, c], rmin2[r, c], [x for x in srmax[r, c, :]], [x for x in srmin[r, c, :]]],
                         "computeIntervalBoundsPx": [binf[r, c], bsup[r, c]]}
                 for name, k in ks.items():
                     a = {}
@@ -1017,10 +1019,131 @@ def regul_cross_check(ctx, report, status):
                                f"border_left={bl} border_right={br} depth={depth}", f"real={real.astype(int).tolist()} reading={[[int(v) for v in r] for r in want]}")
 
 
+def graphreg_cross_check(ctx, report, status):
+    """The REAL compiled `graph_regularization` against the translator's exact reading of its aggregation loop
+    (`gen_kernels_regul.evaluate_graphreg`, with numba's nanquantile rule written exactly: min / max shortcuts, single value,
+    `lower * (1 - m) + upper * m`) on random integer grids with NaN, valid segments, ANY Boolean graph with the diagonal set,
+    dyadic quantiles (every float operation exact)."""
+    import random
+
+    try:
+        from translator import gen_kernels_regul
+        x = gen_kernels_regul.extract_graphreg()
+    except Exception:  # already reported by build_and_audit (translate())  # pylint: disable=broad-except
+        return
+    from pandora import interval_tools
+
+    def nanq(vals, q):
+        xs = [v for v in vals if v != "nan"]
+        if not xs:
+            return "nan"
+        if len(xs) == 1:
+            return xs[0]
+        if q == 1:
+            return max(xs)
+        if q == 0:
+            return min(xs)
+        srt = sorted(xs)
+        rank = 1 + (len(xs) - 1) * Fraction(q)
+        f = rank.numerator // rank.denominator
+        m = rank - f
+        lower = srt[f - 1]
+        upper = srt[f] if f < len(srt) else lower
+        return lower * (1 - m) + upper * m
+
+    report.translator_checks += 1
+    rng = random.Random(ctx.seed * 31 + 12)
+    problems = 0
+    for _ in range(ctx.n(120, 1200)):
+        nr, nc = rng.randint(1, 4), rng.randint(3, 8)
+        def grid():
+            return [[("nan" if rng.random() < 0.12 else Fraction(rng.randint(-6, 6))) for _ in range(nc)] for _ in range(nr)]
+        inf, sup = grid(), grid()
+        segs = []
+        for r in range(nr):
+            c = 0
+            while c < nc and len(segs) < 7:
+                c += rng.randint(0, 2)
+                if c >= nc:
+                    break
+                e = min(nc - 1, c + rng.randint(0, 2))
+                segs.append((r, c, e))
+                c = e + 2
+        if not segs:
+            continue
+        n = len(segs)
+        bl = [[r, c] for r, c, _ in segs]
+        br = [[r, e] for r, _, e in segs]
+        graph = [[(a == b) or rng.random() < 0.3 for b in range(n)] for a in range(n)]
+        q = rng.choice([Fraction(0), Fraction(1, 4), Fraction(1, 2), Fraction(3, 4), Fraction(1)])
+        toarr = lambda g: np.array([[np.nan if v == "nan" else float(v) for v in row] for row in g], dtype=np.float32)
+        with np.errstate(all="ignore"):
+            ri, rs, _ = interval_tools.graph_regularization(toarr(inf), toarr(sup), np.array(bl, dtype=np.int64), np.array(br, dtype=np.int64),
+                                                            np.array(graph, dtype=np.bool_), float(q))
+        wi, ws = gen_kernels_regul.evaluate_graphreg(x, inf, sup, bl, br, graph, q, nanq)
+        report.count("graphreg_translation_calls")
+
+        def same(want, real):
+            for wr, rr in zip(want, real.tolist()):
+                for w, r in zip(wr, rr):
+                    if (w == "nan") != math.isnan(r) or (w != "nan" and float(np.float32(float(w))) != r):
+                        return False
+            return True
+        if not (same(wi, ri) and same(ws, rs)):
+            problems += 1
+            if problems <= 3:
+                status.problem("translator", f"translated graph_regularization evaluates differently from the real function on inf={enc_grid(toarr(inf))} "
+                               f"sup={enc_grid(toarr(sup))} border_left={bl} border_right={br} graph={[[int(v) for v in r] for r in graph]} quantile={q}",
+                               f"real={ri.tolist()} {rs.tolist()} reading={[[str(v) for v in r] for r in wi]} {[[str(v) for v in r] for r in ws]}")
+
+
+    # the WHOLE interval_regularization: segments read from the numpy statements, graph, aggregation
+    try:
+        xb = gen_kernels_regul.extract_borders()
+        xw = gen_kernels_regul.extract_whole()
+    except Exception:  # pylint: disable=broad-except
+        return
+    report.translator_checks += 1
+    for _ in range(ctx.n(120, 1200)):
+        nr, nc = rng.randint(1, 4), rng.randint(1, 9)
+        inf = [[("nan" if rng.random() < 0.1 else Fraction(rng.randint(-6, 6))) for _ in range(nc)] for _ in range(nr)]
+        sup = [[("nan" if rng.random() < 0.1 else Fraction(rng.randint(-6, 6))) for _ in range(nc)] for _ in range(nr)]
+        amb = [[("nan" if rng.random() < 0.08 else Fraction(rng.randint(0, 8), 8)) for _ in range(nc)] for _ in range(nr)]
+        thr = Fraction(rng.randint(0, 8), 8)
+        ksz = rng.choice([1, 3, 3, 5])
+        depth = rng.choice([0, 1, 2, 3])
+        q = rng.choice([Fraction(0), Fraction(1, 4), Fraction(1, 2), Fraction(3, 4), Fraction(1)])
+        toarr = lambda g, dt=np.float32: np.array([[np.nan if v == "nan" else float(v) for v in row] for row in g], dtype=dt)
+        try:
+            with np.errstate(all="ignore"):
+                ri, rs, _ = interval_tools.interval_regularization(toarr(inf), toarr(sup), toarr(amb, np.float64), float(thr), ksz, depth, float(q))
+        except Exception:  # the real function refuses the input (kernel wider than the padded row …): outside the reading  # pylint: disable=broad-except
+            report.count("graphreg_real_raises")
+            continue
+        bl, br = gen_kernels_regul.evaluate_borders(xb, amb, thr, ksz)
+        graph = gen_kernels_regul.evaluate_whole(xw, bl, br, depth)
+        wi, ws = gen_kernels_regul.evaluate_graphreg(x, inf, sup, bl, br, graph, q, nanq)
+        report.count("interval_regularization_translation_calls")
+
+        def same2(want, real):
+            for wr, rr in zip(want, real.tolist()):
+                for w, r in zip(wr, rr):
+                    if (w == "nan") != math.isnan(r) or (w != "nan" and float(np.float32(float(w))) != r):
+                        return False
+            return True
+        if not (same2(wi, ri) and same2(ws, rs)):
+            problems += 1
+            if problems <= 3:
+                status.problem("translator", f"translated interval_regularization evaluates differently from the real function on inf={enc_grid(toarr(inf))} "
+                               f"sup={enc_grid(toarr(sup))} amb={[[str(v) for v in r] for r in amb]} threshold={thr} kernel={ksz} depth={depth} quantile={q}",
+                               f"real={ri.tolist()} {rs.tolist()} reading={[[str(v) for v in r] for r in wi]} {[[str(v) for v in r] for r in ws]} segments={bl} {br}")
+
+
 def run(ctx, report, status):
     translator_cross_check(report, status)
     kernel_cross_check(ctx, report, status)
     regul_cross_check(ctx, report, status)
+    graphreg_cross_check(ctx, report, status)
     report.rule = (
         "kernels: random 1-5 x 1-7 x 1-9 cost volumes (integer / quarter / few-valued / ramp costs, global range a power of two, "
         "NaN holes, all-NaN pixels, missing planes, full ties), min and max measures, dyadic eta grids and thresholds -> exact "
